@@ -401,11 +401,12 @@ impl Plan {
 
             for cp in input_unicodes.iter() {
                 match charmap.map(cp) {
-                    Some(gid) => {
+                    // a character map entry may name a glyph the font does not have
+                    Some(gid) if (gid.to_u32() as usize) < self.font_num_glyphs => {
                         self.codepoint_to_glyph.insert(cp, gid);
                         self.unicode_to_new_gid_list.push((cp, gid));
                     }
-                    None => {
+                    _ => {
                         continue;
                     }
                 }
@@ -427,6 +428,10 @@ impl Plan {
                     match unicode_gid_map.get(&cp) {
                         Some(gid) => {
                             if !input_gids.contains(*gid) && !input_unicodes.contains(cp) {
+                                continue;
+                            }
+                            // a character map entry may name a glyph the font does not have
+                            if gid.to_u32() as usize >= self.font_num_glyphs {
                                 continue;
                             }
                             self.codepoint_to_glyph.insert(cp, *gid);
